@@ -215,6 +215,57 @@ theorem reverse_from_position_eq_prefix (c : List Nat) (p bs : Nat) (hbs : 1 ≤
     reverseIterLinesFrom c p bs = reverseIterLines (c.take p) bs := by
   rw [reverse_lines_from_position c p bs hbs, reverse_lines _ bs hbs]
 
+/-! ## sizes (round 5): nothing depends on the LENGTH of a text / line / file -/
+
+/-- SIZE FAMILY (round 5): a run of ANY length `n` (0, 255, 256, 257, 65536 …) of an ordinary character followed by any
+    of the eight line-break forms comes back as that run and one final empty string -/
+theorem run_then_break (n a : Nat) (sep : List Nat) (ha : lineBreakChar a = false)
+    (hs : sep ∈ [[13, 10], [10], [11], [12], [13], [133], [8232], [8233]]) :
+    iterSplitlines (List.replicate n a ++ sep) = [List.replicate n a, []] := by
+  rw [splitlines_eight_forms, run_then_break_eight n a sep ha hs, endsWithBreak_of_form _ sep hs]
+  rfl
+
+/-- for EVERY text that ends with one of the eight line-break forms, of whatever length, the last item
+    yielded is the empty string, and there is exactly one more item than `splitlines` has lines -/
+theorem closing_break_final_empty (p sep : List Nat)
+    (hs : sep ∈ [[13, 10], [10], [11], [12], [13], [133], [8232], [8233]]) :
+    (iterSplitlines (p ++ sep)).getLast? = some [] ∧
+      (iterSplitlines (p ++ sep)).length = (eightSplitlines (p ++ sep)).length + 1 := by
+  rw [splitlines_eight_forms, endsWithBreak_of_form p sep hs]
+  simp
+
+/-- the same family read backwards from a file: one line of any length `n` closed by LF or CR LF, any block size -/
+theorem reverse_run_then_break (n a bs : Nat) (sep : List Nat) (hbs : 1 ≤ bs) (ha : bytesBreak a = false)
+    (hs : sep = [10] ∨ sep = [13, 10]) :
+    reverseIterLines (List.replicate n a ++ sep) bs = [[], List.replicate n a] := by
+  rw [reverse_lines _ bs hbs]
+  have h10 : (a == 10) = false := by
+    cases h : a == 10
+    · rfl
+    · have : a = 10 := by simpa using h
+      subst this; simp [bytesBreak] at ha
+  have hsp : bytesSplitlines (List.replicate n a ++ sep) = [List.replicate n a] := by
+    unfold bytesSplitlines
+    induction n with
+    | zero =>
+      simp only [List.replicate_zero, List.nil_append]
+      rcases hs with h | h <;> subst h <;> decide
+    | succ n ih => simp [List.replicate_succ, aux_cons, ha, ih, consHead]
+  have hne : sep ≠ [] := by rcases hs with h | h <;> subst h <;> simp
+  have hend : endsNL (List.replicate n a ++ sep) = true := by
+    unfold endsNL
+    rw [lastIs_append _ _ _ hne]
+    rcases hs with h | h <;> subst h <;> decide
+  simp [linesOf, hsp, hend]
+
+/-- conversely (no spurious final item): for a text that does NOT end with a line break, of whatever length, the
+    last item yielded is not the empty string -/
+theorem no_closing_break_last_nonempty (t : List Nat) (h : endsWithBreak t = false) :
+    ∀ l, (iterSplitlines t).getLast? = some l → l ≠ [] := by
+  rw [splitlines_eight_forms, h]
+  simp only [Bool.false_eq_true, if_false, List.append_nil]
+  exact aux_last_nonempty lineBreakChar (by decide) t false h
+
 /-- content with multi-byte characters / text mode: when the file holds well-formed UTF-8, every
     line the loop yields is well-formed UTF-8, so `line.decode('utf-8')` cannot fail and no line
     begins or ends inside a character — for every block size, also one that cuts every character
@@ -630,5 +681,17 @@ example : joinWith [10] (reverseIterLines [97, 10, 10, 98, 10] 2).reverse = [97,
 
 -- latin-1 is such a decoding (the identity on byte values): "é\nb" = e9 0a 62
 example : (reverseIterLines [233, 10, 98] 1).map (·.map id) = [[98], [233]] := by decide
+
+
+-- round 5: the size family at a length beyond CPython's small-int cache, by the theorem (no evaluation)
+example : iterSplitlines (List.replicate 257 97 ++ [13, 10]) = [List.replicate 257 97, []] :=
+  run_then_break 257 97 [13, 10] (by decide) (by decide)
+example : iterSplitlines (List.replicate 3 97 ++ [8232]) = [[97, 97, 97], []] := by decide
+example : (iterSplitlines ([97, 10, 98] ++ [133])).getLast? = some [] := (closing_break_final_empty [97, 10, 98] [133] (by decide)).1
+example : reverseIterLines (List.replicate 65536 97 ++ [13, 10]) 4096 = [[], List.replicate 65536 97] :=
+  reverse_run_then_break 65536 97 4096 [13, 10] (by decide) (by decide) (Or.inr rfl)
+example : reverseIterLines ([97, 97, 97] ++ [10]) 2 = [[], [97, 97, 97]] := by decide
+
+example : endsWithBreak [97, 10, 98] = false ∧ (iterSplitlines [97, 10, 98]).getLast? = some [98] := by decide
 
 end C19
